@@ -191,10 +191,9 @@ def handle (st : St) (line : String) : St × List String :=
     | some (r, _lo :: _hi :: nan :: filled :: empty :: rest2) =>
       let bnan := rest2.getD 3 "?"
       let taint := rest2.getD 5 "?"
-      -- `if (out.isFilled()) … else if (!out.isEmpty()) …`   (heightmap.cpp as it stands: the maybe-NaN flag is
-      -- NOT consulted.  If proposed_fixes/C09-isfilled-maybe-nan.patch is applied, this reading must become
-      -- `filled == "1" && nan == "0"`; until then a fixed library shows up here as `MISMATCH render`.)
-      let s := if filled == "1" then IState.filled else if empty == "1" then IState.empty else IState.ambiguous
+      -- `if (out.isSafe() && out.isFilled()) … else if (!out.isEmpty()) …`   (heightmap.cpp since fix 3984e95)
+      let s := if filled == "1" && nan == "0" then IState.filled
+        else if empty == "1" then IState.empty else IState.ambiguous
       -- hypothesis `Sound`: filled ⇒ every voxel centre inside, empty ⇒ none
       let f := st.f
       let v := r.v
@@ -206,7 +205,7 @@ def handle (st : St) (line : String) : St × List String :=
         | .empty => all false
         | .ambiguous => true
       let o := if sound then [] else
-        [s!"hyp-unsound case {st.case} w {st.w} view {showView v} state {if filled == "1" then "filled" else "empty"} maybe-nan {nan} base-maybe-nan {bnan} taint {taint}"]
+        [s!"hyp-unsound case {st.case} w {st.w} view {showView v} state {if s == IState.filled then "filled" else "empty"} maybe-nan {nan} base-maybe-nan {bnan} taint {taint}"]
       let o := if r.ptsOk then o else s!"MISMATCH view-pts case {st.case} w {st.w} {showView v}" :: o
       ({ st with tbl := st.tbl.insert v s }, o)
     | _ => (st, [s!"MISMATCH parse case {st.case} I"])
